@@ -40,6 +40,90 @@ func checkC09(c *Ctx) {
 		{Owner: "lib.DecoyTimeout", Field: "status", Mutex: "lib.RegisteredDecoys.m", Foreign: true},
 	}, nil)
 
+	// ---- C09.10 a single remover: removeRegistration uses the record it looks up without a found-test, which is only
+	// safe while nothing else can delete records between the sweeper's collection and removal phases
+	r.Rule("C09.10", "records are removed by one sweeper only (or removeRegistration tolerates a record that is already gone)", 1)
+	if rem := c.fn("C09.10", "pkg/station/lib", "RegisteredDecoys", "removeRegistration"); rem != nil {
+		// does it tolerate a missing record? every field read of the looked-up record is dominated by a found / non-nil test
+		tolerant := true
+		nUse := 0
+		eachInstr(rem, func(in ssa.Instruction) {
+			fa, ok := in.(*ssa.FieldAddr)
+			if !ok {
+				return
+			}
+			xp := pathOf(fa.X)
+			if !strings.HasSuffix(xp, ".decoysTimeouts["+P(rem, 1)+"]") && !strings.HasSuffix(xp, ".decoysTimeouts["+P(rem, 1)+"]#0") {
+				return
+			}
+			nUse++
+			if !guardedM(rem, in, func(cnd string, pol bool) bool {
+				return (strings.HasSuffix(cnd, ".decoysTimeouts["+P(rem, 1)+"]#1") && pol) || (strings.Contains(cnd, "nil") && strings.Contains(cnd, ".decoysTimeouts["+P(rem, 1)+"]") && !pol)
+			}) {
+				tolerant = false
+			}
+		})
+		if nUse == 0 {
+			r.Unk("C09.10", "removeRegistration: use of the looked-up record", rem.Pos(), fnName(rem), "no field read of decoysTimeouts[index] found")
+		} else if tolerant {
+			r.OK("C09.10", "removeRegistration: tolerates a record that is already gone", rem.Pos(), fmt.Sprintf("%d field reads, each behind a found-test", nUse))
+		} else {
+			// single remover: one static chain main-sweeper -> RemoveOldRegistrations -> removeOldRegistrations -> removeRegistration
+			type link struct{ callee, caller string }
+			chain := []link{{"removeRegistration", "removeOldRegistrations"}, {"removeOldRegistrations", "RemoveOldRegistrations"}, {"RemoveOldRegistrations", "main$"}}
+			okk := true
+			var why []string
+			var pos token.Pos = rem.Pos()
+			for _, l := range chain {
+				var sites []string
+				for _, f := range c.P.RepoFuncs() {
+					for _, ci := range callsIn(f, shortIs(l.callee)) {
+						if cal := ci.Common().StaticCallee(); cal == nil || !strings.HasPrefix(fnPkgPath(cal), repoMod+"/pkg/station/lib") {
+							continue
+						}
+						sites = append(sites, fnName(f))
+						matches := strings.HasSuffix(fnName(f), "."+l.caller) || (l.caller == "main$" && strings.Contains(fnName(f), "cmd/application.main$"))
+						if !matches {
+							okk = false
+							pos = ci.Pos()
+							why = append(why, l.callee+" is also called from "+fnName(f))
+						}
+						if _, isGo := ci.(*ssa.Go); isGo {
+							okk = false
+							why = append(why, l.callee+" is started as a goroutine in "+fnName(f))
+						}
+					}
+				}
+				if len(sites) != 1 {
+					okk = false
+					why = append(why, fmt.Sprintf("%s has %d call sites %v, expected exactly one", l.callee, len(sites), sites))
+				}
+			}
+			// the sweeper closure is started once (its go statement is not in a loop)
+			if mainFn := c.P.Func(repoMod+"/cmd/application", "", "main"); mainFn != nil {
+				eachInstr(mainFn, func(in ssa.Instruction) {
+					g, ok := in.(*ssa.Go)
+					if !ok {
+						return
+					}
+					mc, ok := g.Call.Value.(*ssa.MakeClosure)
+					if !ok {
+						return
+					}
+					if fn, ok := mc.Fn.(*ssa.Function); ok && len(callsIn(fn, shortIs("RemoveOldRegistrations"))) > 0 {
+						if again, _ := reach(mainFn, g, isInstr(g), nil, nil); again {
+							okk = false
+							why = append(why, "the sweeper goroutine is started in a loop")
+						}
+					}
+				})
+			}
+			sort.Strings(why)
+			r.Check(okk, "C09.10", "removeRegistration: called by the one sweeper only (it does not tolerate a record that is already gone)", pos, fnName(rem), "single static chain main sweeper -> RemoveOldRegistrations -> removeOldRegistrations -> removeRegistration",
+				"removeRegistration dereferences decoysTimeouts[index] without a found-test; with a second remover ("+firstN(strings.Join(why, "; "), 160)+") a record collected by one sweep can be gone when the other removes it: nil dereference, the station crashes")
+		}
+	}
+
 	// ---- C09.6 no re-entrant acquisition of the registration lock (sync.RWMutex: a second RLock behind a waiting
 	// writer never returns) - directly or through a callee that takes it
 	r.Rule("C09.6", "RegisteredDecoys.m is never acquired while it may already be held (directly or through a callee)", 10)
@@ -360,16 +444,26 @@ func checkC09(c *Ctx) {
 						"a receive (or range) on "+pathOf(ch)+" alone never observes the stop request while the channel is idle: shutdown hangs in wg.Wait()")
 				}
 			}
-			if s, ok := in.(*ssa.Select); ok && s.Blocking {
-				n++
-				has := false
+			if s, ok := in.(*ssa.Select); ok {
+				has, recvOther := false, false
 				for _, st := range s.States {
 					if st.Dir == 2 && isDoneChan(st.Chan) {
 						has = true
+					} else if st.Dir == 2 {
+						recvOther = true
 					}
 				}
-				r.Check(has, "C09.4", fnName(f)+": blocking select "+selectDesc(s), in.Pos(), fnName(f), "has a ctx.Done() case",
-					"a blocking select without a ctx.Done() case cannot be interrupted by the stop request")
+				if s.Blocking {
+					n++
+					r.Check(has, "C09.4", fnName(f)+": blocking select "+selectDesc(s), in.Pos(), fnName(f), "has a ctx.Done() case",
+						"a blocking select without a ctx.Done() case cannot be interrupted by the stop request")
+				} else if recvOther {
+					// a polling receive: as long as the channel has something the loop never reaches a wait that sees the
+					// stop request
+					n++
+					r.Check(has, "C09.4", fnName(f)+": polling select "+selectDesc(s), in.Pos(), fnName(f), "has a ctx.Done() case",
+						"a non-blocking receive without a ctx.Done() case takes a message whenever one is pending: while messages keep arriving the loop never looks at the stop request and shutdown does not finish")
+				}
 			}
 		})
 		if n == 0 {
